@@ -514,6 +514,9 @@ class TypeTransformer:
 
         data = self._attempt_from(data)
         if isinstance(data, (int, float, Decimal)):
+            if data != data or data in (float('inf'), float('-inf')):
+                # NaN / Infinity is not a timestamp (and would never leave the scaling loop)
+                raise ValueError(f'invalid timestamp: {data}')
             while abs(data) > self.MS_WATERSHED:
                 data /= 1000
             return t.utcfromtimestamp(data).replace(tzinfo=timezone.utc)
@@ -552,6 +555,8 @@ class TypeTransformer:
         except (TypeError, ValueError):
             pass
         else:
+            if num != num or num in (float('inf'), float('-inf')):
+                raise ValueError(f'invalid timestamp: {data}')
             while abs(num) > self.MS_WATERSHED:
                 num /= 1000
             return t.utcfromtimestamp(num).replace(tzinfo=timezone.utc)
